@@ -281,4 +281,35 @@ class Observable(Part):
         return {"nontrivial": text != default_text or pyscope.non_update_in_loop(tree) >= 1, "classes": cl}
 
 
-PARTS = [Main(), ShippedMetrics(), Observable()]
+class GeneratedMetrics(Part):
+    name = "generated-metrics"
+    rule = ("D_metrics specifications: the flow graph is built WITH the Metrics object (metrics header/footer/body nodes, eager "
+            "input nodes, merger swizzles interleaved with the loop chain) under default and drawn tie-breaks; same graph invariants "
+            "as the main part")
+
+    def budget(self, tier):
+        return {"quick": dict(examples=150, shards=3, seconds=80),
+                "thorough": dict(examples=2000, shards=8, seconds=900)}[tier]
+
+    def strategy(self, tier):
+        from .. import gen_metrics
+
+        @st.composite
+        def strat(draw):
+            c = draw(gen_metrics.case_metrics(n_min=1, n_max=3, with_inputs=False))
+            return {"spec": c["spec"], "rejected": bool(c.get("mapping_rejected")),
+                    "choices": draw(st.lists(st.integers(0, 7), min_size=8, max_size=40))}
+        return strat()
+
+    def describe(self, case):
+        return {"yaml": S.to_yaml(case["spec"]), "choices": case["choices"]}
+
+    def run_case(self, case):
+        if case["rejected"]:
+            raise Skip("rejected_by_compiler", "mapping")
+        y = S.to_yaml(case["spec"])
+        between = explore(y, True, case["choices"], {"yaml": y, "choices": case["choices"]})
+        return {"nontrivial": between > 0, "classes": ["family=metrics"]}
+
+
+PARTS = [Main(), ShippedMetrics(), Observable(), GeneratedMetrics()]
